@@ -55,7 +55,8 @@ def cells(tier, seed):
             if fmt == "#05" and kind == "str":
                 continue
             out.append({"k": "interp", "fmt": fmt, "kind": kind})
-    out.append({"k": "sprintf"})
+    for form in range(6):
+        out.append({"k": "sprintf", "form": form})
     for lx in (0, 1, 2):
         for lmid in (0, 1):
             for ly in (0, 1):
@@ -333,16 +334,34 @@ def run(ctx, cell):
         return out
     if k == "sprintf":
         ctx.reach("interp")
+        from harness.common import sstr
         a, b = ctx.int("a", -999, 999), ctx.str("b", 1)
-        out = run_ckl("sprintf('<{0}|{1}|{0#5}>', a, b)", {"a": vint(a), "b": vstr(b)})
-        detail = lambda: {"a": int(a), "b": str(b), "got": ctx.plain(out)}
+        sa = sstr(a)
+        pad = lambda w: " " * max(0, w - len(sa))
+        # (template, number of arguments, position of a, position of b, expected text)
+        forms = [
+            ("<{0}|{1}|{0#5}>", 2, 0, 1, lambda: "<" + sa + "|" + b + "|" + pad(5) + sa + ">"),
+            # two-digit placeholder indices next to the one-digit index that is their prefix
+            ("{10}-{1}-{10#4}|{1}{0}", 11, 10, 1, lambda: sa + "-" + b + "-" + pad(4) + sa + "|" + b + "0"),
+            ("{1}{11}{0#3}|{11}", 12, 11, 1, lambda: b + sa + "  0|" + sa),
+            # text that only looks like the start of a placeholder is ordinary text
+            ("x{1", 2, 0, 1, lambda: "x{1"),
+            ("{0}{1", 2, 0, 1, lambda: sa + "{1"),
+            ("{1}{0#4}{0", 2, 0, 1, lambda: b + pad(4) + sa + "{0"),
+        ]
+        tmpl, nargs, pa, pb, exp = forms[cell.get("form", 0)]
+        env, names = {}, []
+        for q in range(nargs):
+            nm = "p%d" % q
+            names.append(nm)
+            env[nm] = vint(a) if q == pa else (vstr(b) if q == pb else vint(q))
+        text = "sprintf('%s', %s)" % (tmpl, ", ".join(names))
+        out = run_ckl(text, env)
+        detail = lambda: {"call": text, "a": int(a), "b": str(b), "got": ctx.plain(out)}
         if out.kind != "ok":
             fail_out(ctx, key, out, detail)
             return out
-        from harness.common import sstr
-        sa = sstr(a)
-        pad = " " * max(0, 5 - len(sa))
-        ctx.check(T(out.value) == "<" + sa + "|" + b + "|" + pad + sa + ">", key + ":wrong", detail)
+        ctx.check(T(out.value) == exp(), key + ":wrong", detail)
         return out
     raise AssertionError(k)
 
